@@ -1,0 +1,27 @@
+//go:build verif
+
+package client
+
+// Read-only size accessors for the verification harness (build tag verif only; hook h2 of /verif/DESIGN.md).
+
+// VerifTableSizes is the number of entries in every per-exchange table of a connection.
+type VerifTableSizes struct {
+	Token   int // tokenHandlerContainer
+	BwRecv  int // blockwise receivingMessagesCache
+	BwSend  int // blockwise sendingMessagesCache
+	Obs     int // observation table
+	Limiter int // limitParallelRequests endpoint queues
+}
+
+// VerifSizes returns the current table sizes.
+func (cc *Conn) VerifSizes() VerifTableSizes {
+	s := VerifTableSizes{
+		Token:   cc.tokenHandlerContainer.Length(),
+		Obs:     cc.observationHandler.VerifLen(),
+		Limiter: cc.Client.LimitParallelRequests.VerifEntries(),
+	}
+	if cc.blockWise != nil {
+		s.BwRecv, s.BwSend = cc.blockWise.VerifCacheSizes()
+	}
+	return s
+}
